@@ -49,6 +49,7 @@ type Frame struct {
 	top       bool
 	curPos    token.Pos
 	entryNames map[string]Value
+	dryGhostSets map[string]bool // ghost variables assigned during loop dry runs
 }
 
 func (f *Frame) lookupLocal(name string, pos token.Pos) types.Object {
@@ -890,7 +891,11 @@ func (x *X) materializeArray(st *State, arr Value, at *types.Array) Value {
 		for i := 0; i < bl; i++ {
 			inner = Store(inner, BVInt(int64(i), 64), packedByte(arr.S(), bl, i))
 		}
-		x.c.setInnerArr(st, at.Elem(), 0, r, x.c.define("arrm", inner))
+		innerD := x.c.define("arrm", inner)
+		x.c.setInnerArr(st, at.Elem(), 0, r, innerD)
+		// the slice over the copy has the same abstract content as the array value
+		x.c.assume(st.pc, Eq(App("bytes_of", SBytes, innerD, BVInt(0, 64), BVInt(int64(bl), 64)),
+			x.c.uf(fmt.Sprintf("bytes_of_arr%d", bl), SBytes, arr.S())))
 	} else {
 		el := layoutOf(at.Elem())
 		for k := range el.Comps {
